@@ -49,6 +49,7 @@ class Path(object):
         self.solver = z3.Solver()
         self.solver.set('rlimit', RLIMIT_BRANCH)
         self.solver.set('timeout', SAFETY_TIMEOUT_MS)      # safety valve only; budgets are the rlimit values
+        self.facts = []
         self.obligations = []
         self.steps = 0
         self.depth = 0
@@ -59,7 +60,13 @@ class Path(object):
         self.pure = 0             # >0: inside a scope where real branching is not allowed
 
     # ---- solver
+    def _flush_facts(self):
+        for f in V.take_pending_facts():
+            self.facts.append(f)
+            self.solver.add(f)
+
     def _check(self, *assumptions, **kw):
+        self._flush_facts()
         t = time.time()
         STATS['queries'] += 1
         rl = kw.get('rlimit')
@@ -103,7 +110,8 @@ class Path(object):
             d = self.decisions[self.pos][0]
         else:
             t = self.feasible(c)
-            f = self.feasible(z3.Not(c))
+            # the path so far is feasible, so if c is infeasible its negation must hold: no second query
+            f = self.feasible(z3.Not(c)) if t else True
             if t and f and self.pure:
                 raise Unsupported('branch inside a branch-free scope')
             if t and f:
@@ -171,15 +179,20 @@ class _Scope(object):
         self.path = path
 
     def __enter__(self):
+        self.path._flush_facts()
         self.path.solver.push()
         self.n = len(self.path.pc)
+        self.nf = len(self.path.facts)
         self.path.pure += 1
         return self
 
     def __exit__(self, *a):
         self.path.pure -= 1
+        self.path._flush_facts()
         del self.path.pc[self.n:]
         self.path.solver.pop()
+        for f in self.path.facts[self.nf:]:       # universally valid range facts: keep them outside the scope
+            self.path.solver.add(f)
         return False
 
 
@@ -234,6 +247,26 @@ def cur():
 class PathResult(object):
     def __init__(self, path, kind, value):
         self.path, self.kind, self.value = path, kind, value     # kind: 'ret' | 'raise' | 'end' | 'unsupported'
+
+
+def _cheap_entails(f):
+    p = P
+    if p is None:
+        return False
+    p._flush_facts()
+    p.solver.set('rlimit', 2_000_000)
+    STATS['queries'] += 1
+    t = time.time()
+    try:
+        r = p.solver.check(z3.Not(f))
+    except z3.Z3Exception:
+        r = z3.unknown
+    STATS['solver_s'] += time.time() - t
+    p.solver.set('rlimit', RLIMIT_BRANCH)
+    return r == z3.unsat
+
+
+V.ENTAILS = _cheap_entails
 
 
 def explore(thunk, max_paths=20000):
